@@ -13,7 +13,8 @@ func init() {
 			{lean: "skel_ServeHTTP", dir: "server/lib", name: "httpHandler.ServeHTTP", calls: calls, assigns: `^addr$|^clientIPParam$`},
 			{lean: "skel_turbotunnelMode", dir: "server/lib", name: "turbotunnelMode", calls: calls},
 			{lean: "skel_QueueIncoming", dir: "common/turbotunnel", name: "QueuePacketConn.QueueIncoming", calls: `^copy$|^make$`},
-			{lean: "skel_WriteTo", dir: "common/turbotunnel", name: "QueuePacketConn.WriteTo", calls: `^copy$|^make$|SendQueue$`},
+			{lean: "skel_WriteTo", dir: "common/turbotunnel", name: "QueuePacketConn.WriteTo", calls: `^copy$|^make$|SendQueue$|trySend$`},
+			{lean: "skel_trySend", dir: "common/turbotunnel", name: "ClientMap.trySend", calls: `SendQueue$|Lock$|Unlock$`},
 			{lean: "skel_OutgoingQueue", dir: "common/turbotunnel", name: "QueuePacketConn.OutgoingQueue", calls: `SendQueue$`, returns: true},
 		},
 	})
